@@ -83,7 +83,10 @@ def to_text(root, pretty=False):
     if pretty:
         root = clone(root)
         _indent_keep_text(root)
-    return ET.tostring(root, encoding='unicode')
+    # U+E00D is the generators' placeholder for a carriage return that must
+    # reach the parser as a character reference (a raw CR would be normalised
+    # to LF by the XML parser before the library ever sees it)
+    return ET.tostring(root, encoding='unicode').replace('\ue00d', '&#13;')
 
 
 def _indent_keep_text(elem, level=0):
